@@ -23,7 +23,11 @@ CFG = dict(
          "partial-signature messages whose every field is drawn from extreme sets (0, 1, 2^31, 2^32, 2^62, 2^63-1, 2^63, 2^64-1, near-current), known / unknown / "
          "liquidated / metadata-less / exited / pending validators, invalid keys, all roles incl. invalid, clocks from 1969 to the int64 limit; direct kernel ops "
          "(currentEstimatedRound, validateSlotTime, maxDecidedCount, RoundRobinProposer incl. round 0); malformed byte stream (truncation, bit flips, offset/length "
-         "word edits, splices, random, 1 MiB) over real encodings; distinct = (input kind, outcome tag, fresh/with-history)",
+         "word edits, splices, random, 1 MiB) over real encodings; resource stratum: ONE validator receives a stream (120 quick / 3000 thorough) of messages for ids the "
+         "node does not serve — distinct well-formed unregistered BLS keys x 7 roles with the right domain, liquidated / metadata-less / exited validators, foreign "
+         "domain, invalid roles, malformed keys, every 8th through the pubsub entry point — and, on EVERY call of every case, an oracle on the validator's internals "
+         "(shim: sizes of validationLocks and of the consensus-state index before/after): a call for an unserved id leaves no per-id state "
+         "(C08/unserved-id-leaves-per-id-state); distinct = (input kind, outcome tag, fresh/with-history)",
     trusted_base=["model of go1.23 time.Time (Unix/Add/Sub/Before/After with int64 wrap and saturation) and beacon.Network slot arithmetic (uint64 wrap)",
                   "instance.IsProposalJustification, SSZ/JSON decoding, BLS key deserialisation, RSA verification are abstract inputs computed by the harness from the real functions"],
     assumptions=["stored shares have a non-empty committee of fewer than 2^31 operators (registry invariant, C11)",
